@@ -106,7 +106,7 @@ def finish_impl(d, scratch):
         wraps += re.findall(r'\bWRAPV?\w*\((\w+)', txt) + re.findall(r'\b__wrap_(\w+)\s*\(', txt)
     wl = ['-Wl,--wrap=' + w for w in sorted(set(wraps)) if w.startswith('__')]
     sh(['gcc', '-O1', '-g', '-w', '-I' + os.path.join(d, 'include'), '-I' + os.path.join(ROOT, 'harness')] + srcs +
-       [os.path.join(d, 'libmpir.a'), '-lm', '-lpthread'] + wl + ['-o', os.path.join(d, 'drv')], timeout=600)
+       [os.path.join(d, 'libmpir.a'), '-lm', '-lpthread', '-no-pie'] + wl + ['-o', os.path.join(d, 'drv')], timeout=600)   # -no-pie: the fat build's entry stubs are not position independent
 
 
 def build_impl(log=None):
